@@ -12,6 +12,42 @@ EVID = Path(os.environ["OPSA_EVIDENCE_DIR"]) if os.environ.get("OPSA_EVIDENCE_DI
 KNOWN = VERIF / "known_findings.json"
 
 
+class _Corroborating:
+    def __init__(self, led, holds, decided_by):
+        self.__dict__.update(_led=led, _holds=holds, _by=decided_by, _weak=False)
+
+    def __getattr__(self, k):
+        return getattr(self._led, k)
+
+    def __setattr__(self, k, v):
+        setattr(self._led, k, v)
+
+    def fail(self, rule, construct, where, why, path=None, witness=None):
+        if self._holds:
+            self.__dict__["_weak"] = True
+            self._led.undecided(rule, construct, where, f"structural rule does not recognise this shape ({why[:140]}); decided by {self._by}, which holds")
+        else:
+            self._led.fail(rule, construct, where, why, path=path, witness=witness)
+
+    def run_section(self, rids, fn, where="", floor_to=None):
+        """run one group of corroborating rules; an anchor loss inside it is undecided (not analysis-broken) while the
+        deciding rule holds"""
+        from .loader import AnchorError
+        try:
+            fn()
+        except AnchorError as e:
+            if not self._holds:
+                raise
+            self.__dict__["_weak"] = True
+            self._led.info(f"structural rule(s) {', '.join(rids)} not applicable to this shape ({e}); decided by {self._by}")
+            for rid in rids:
+                self._led.undecided(rid, "structural rule ▸ anchor shape", where, f"anchor not found ({e}); decided by {self._by}")
+
+    @property
+    def weakened(self):
+        return self._weak
+
+
 class Ledger:
     def __init__(self, prop: str, tier: str):
         self.prop = prop
@@ -48,6 +84,12 @@ class Ledger:
 
     def info(self, text):
         self.infos.append(text)
+
+    def corroborating(self, holds: bool, decided_by: str):
+        """view of this ledger for shape-keyed rules that corroborate a deciding rule (an interpreted table): while the
+        deciding rule holds, a failure of a corroborating rule means the shape was not recognised and is recorded as
+        undecided; when the deciding rule fails, everything is reported.  Use run_section() for anchor losses."""
+        return _Corroborating(self, holds, decided_by)
 
     def note_cfg(self, fi, cfg):
         s = cfg.stats()
